@@ -59,7 +59,7 @@ PINS = {
     "read_field.header": "9266cc8887d4b250",
     "read_method.header": "ae53163589b50109",
     "read.skeleton": "600731ae46803a6a",
-    "read_code.header": "34fac866b809d2af",
+    "read_code.header": "c93927729a1c4a56",
     "read_code.StackMapTable": "20e2a174008c4ebe",
     "read_code.StackMap": "8cfc5fa7650fd4ef",
     "read_code.LineNumberTable": "1b3547d20c982eb1",
